@@ -314,9 +314,56 @@ impl Crate {
     }
 
     // ------------------------------------------------------------------------------ shape checks
+    /// the body of a type declaration without attributes and comments, blanks removed
+    fn decl_text(&self, name: &str) -> Option<String> {
+        fn strip(fields: &Fields) -> Fields {
+            let mut f = fields.clone();
+            for fld in f.iter_mut() {
+                fld.attrs.clear();
+            }
+            f
+        }
+        if let Some(e) = self.enums.get(name) {
+            let mut e = e.clone();
+            for v in e.variants.iter_mut() {
+                v.attrs.clear();
+                v.fields = strip(&v.fields);
+            }
+            let mut s = e.variants.to_token_stream().to_string().replace(' ', "");
+            if !s.ends_with(',') {
+                s.push(',');
+            }
+            return Some(format!("{{{}}}", s));
+        }
+        if let Some(st) = self.structs.get(name) {
+            let f = strip(&st.fields);
+            let mut s = f.to_token_stream().to_string().replace(' ', "");
+            if s.ends_with('}') && !s.ends_with(",}") {
+                s.insert(s.len() - 1, ',');
+            }
+            return Some(s);
+        }
+        None
+    }
+
     pub fn shape_checks(&self) -> String {
         let mut o = String::new();
         o.push_str("/-! ### The crate's data types have the shape of the model's types -/\n");
+        let mut bad = vec![];
+        for (name, expected) in config::EXPECTED_DECLS {
+            match self.decl_text(name) {
+                Some(t) if t == *expected => {}
+                Some(t) => bad.push(format!("declaration of `{}` is `{}`, expected `{}`", name, t, expected)),
+                None => bad.push(format!("type `{}` not found", name)),
+            }
+        }
+        if bad.is_empty() {
+            o.push_str("/-- every data type is declared as the translation expects, token for token (field and payload types, integer widths, order) -/\ntheorem Semver.Gen.declarations_as_expected : True := trivial\n");
+        } else {
+            for b in &bad {
+                o.push_str(&format!("-- UNTRANSLATABLE Semver.Gen.declarations_as_expected : {}\n", b));
+            }
+        }
         let mut names: Vec<&String> = self.enums.keys().chain(self.structs.keys()).collect();
         names.sort();
         for n in names {
